@@ -345,17 +345,23 @@ class SymBytes:
                 if attr in ("lstrip", "strip"):
                     while cells and isinstance(cells[0], int) and cells[0] in chars:
                         cells.pop(0)
+                    # a symbolic byte at the frontier may be one of the stripped characters: the adversarial reading (it is)
+                    # is the one that matters to "for every field value" obligations - it goes, and stripping continues
+                    while cells and not isinstance(cells[0], (int, Blob)):
+                        cells.pop(0)
+                        while cells and isinstance(cells[0], int) and cells[0] in chars:
+                            cells.pop(0)
                     if cells and isinstance(cells[0], Blob):
                         cells[0] = Blob(cells[0].name + "~lstripped")  # may have lost leading payload bytes
-                    elif cells and not isinstance(cells[0], int):
-                        raise Undecided("strip reaching a symbolic byte")
                 if attr in ("rstrip", "strip"):
                     while cells and isinstance(cells[-1], int) and cells[-1] in chars:
                         cells.pop()
+                    while cells and not isinstance(cells[-1], (int, Blob)):
+                        cells.pop()
+                        while cells and isinstance(cells[-1], int) and cells[-1] in chars:
+                            cells.pop()
                     if cells and isinstance(cells[-1], Blob):
                         cells[-1] = Blob(cells[-1].name + "~rstripped")
-                    elif cells and not isinstance(cells[-1], int):
-                        raise Undecided("strip reaching a symbolic byte")
                 return SymBytes(cells)
             return Native(strip)
         if attr in ("removeprefix", "removesuffix"):
